@@ -621,6 +621,32 @@ static void run_chain(const Prob& P, const Params& q, const vector<long>& ks, co
   unlink(file.c_str());
 }
 
+// a search started from a covering that does NOT come from an optimizer (a plain list of boxes covering the domain: no loup
+// point, uplo = -oo, loup = +oo, original space): every box of the list must be searched, the result obeys the same rules as
+// the result of optimize(box)
+static void run_foreign(Rng& r, const Prob& P, const Params& q0, long budget) {
+  // (no a-priori bound: optimize(data, bound) takes the loup of the data, +oo here, not the bound; C07 does not say what an
+  //  a-priori bound means for a covering that carries its own loup, so this variant does not use one)
+  Params q = q0; q.init_loup = POS_INFINITY;
+  int n = P.box.size();
+  int var = r.below(n); if (!P.box[var].is_bisectable()) return;
+  int pieces = r.range(2, 3);
+  vector<IntervalVector> bs; double lo = P.box[var].lb(), hi = P.box[var].ub();
+  if (lo == NEG_INFINITY || hi == POS_INFINITY) return;
+  for (int i = 0; i < pieces; i++) { IntervalVector b = P.box; double a = lo + (hi - lo) * i / pieces, c = (i == pieces - 1) ? hi : lo + (hi - lo) * (i + 1) / pieces; b[var] = Interval(a, c); bs.push_back(b); }
+  if (r.coin()) std::reverse(bs.begin(), bs.end());
+  CovList list(n); for (auto& b : bs) list.add(b);
+  CovOptimData data(list, true);
+  Assembly A(P, q);
+  RNG::srand(q.rseed);
+  verif::optimizer_cell_budget = budget;
+  A.o->optimize(data, q.init_loup);
+  verif::optimizer_cell_budget = -1;
+  check_round_up("optimize-foreign");
+  Result R = A.result();
+  EMIT("optrun %s => %s\n", inputs(P, q).c_str(), outputs(R).c_str());
+}
+
 // a CovOptimData object that no optimizer has filled yet (no loup point, no variable names) must be savable and reloadable;
 // run in a child process: a crash is a finding
 #include <sys/wait.h>
@@ -717,6 +743,7 @@ int main(int argc, char** argv) {
         if (R0.st == Optimizer::TIME_OUT && !r.coin(25)) continue;     // mostly searches that finish within the budget
         long N = (long)R0.nb;
         EMIT("optrun %s => %s\n", inputs(P, q).c_str(), outputs(R0).c_str());
+        if (r.coin(60)) run_foreign(r, P, q, full ? 1200 : 320);
         // every interruption point (cells are counted two by two)
         vector<long> all; for (long k = 2; k < N; k += 2) all.push_back(k);
         size_t maxk = full ? 200 : 24;
